@@ -310,6 +310,10 @@ def handle (st : DState) (line : String) : DState × String :=
     match SeqText.parse (parseNats bytes) with
     | some (es, rest) => (st, " ".intercalate (es.map showElem) ++ "|" ++ showNats rest)
     | none => (st, "none")
+  | ["done", bytes] =>
+    match Done.parseDone (parseNats bytes) with
+    | some (d, rest) => (st, (if d then "1" else "0") ++ "|" ++ showNats rest)
+    | none => (st, "none")
   | ["zone", "fmt", z] => (st, match z.toInt? with | some v => showNats (Zone.fmt v) | none => "bad-int")
   | ["zone", "parse", bytes] => (st, match Zone.parse (parseNats bytes) with | some v => toString v | none => "none")
   | ["astring", maxLen, bytes] =>
